@@ -14,6 +14,8 @@
  *   spnew <record_size> <streamhex>            read_gnu_new_sparse
  *   spold <headerhex> <streamhex>              read_gnu_old_sparse
  *   rh <streamhex>                             read_header (the whole loop: extension records, decode_header, sparse maps)
+ *   rhmax <streamhex>                          monitor: the largest single allocation made inside the read_header calls
+ *                                              of `rh` on this stream (ASan's malloc hook) — answers `max <bytes>`
  *   gl <B> <flags> <content>...                istream_get_line until end of input, on the real buffered file
  *                                              istream (sqfs_istream_open_file) over a temporary file holding the
  *                                              content; content tokens: h<hex> literal bytes, r<count>x<hh> a run.
@@ -89,6 +91,14 @@ static const struct diag diag_rh[] = {
 	{ "skipping tar padding", 17 }, { "skipping padding", 18 }, { "numeric overflow parsing tar header", 8 }, { NULL, 0 } };
 static const struct diag diag_xdec[] = { { "bad input encoding", 1 }, { NULL, 0 } };
 
+/* ---- rhmax: allocation sizes, observed through the sanitizer's allocator hooks ---- */
+int __sanitizer_install_malloc_and_free_hooks(void (*malloc_hook)(const volatile void *, size_t),
+					      void (*free_hook)(const volatile void *));
+static int hook_on;
+static size_t hook_max;
+static void on_malloc(const volatile void *p, size_t n) { (void)p; if (hook_on && n > hook_max) hook_max = n; }
+static void on_free(const volatile void *p) { (void)p; }
+
 /* ---- gl: the content of a text input, run-length coded ---- */
 static unsigned char *expand_content(char **toks, int n, size_t *out_len)
 {
@@ -150,6 +160,7 @@ int main(void)
 {
 	static char line[1 << 22];
 	FILE *null = fopen("/dev/null", "w");
+	int hooks = __sanitizer_install_malloc_and_free_hooks(on_malloc, on_free);
 	(void)null;
 
 	while (fgets(line, sizeof(line), stdin)) {
@@ -342,6 +353,31 @@ int main(void)
 			}
 			if (k == 64) fputs(" ; more", stdout);
 			putchar('\n');
+			free(st);
+		} else if (!strcmp(op, "rhmax") && n == 1) {
+			unsigned char *st; long len = hex_decode_tok(a[0], &st, 0);
+			size_t off = 0; int k;
+			if (len < 0 || !hooks) { puts(hooks ? "bad-op" : "no-hooks"); continue; }
+			hook_max = 0;
+			for (k = 0; k < 64; ++k) {
+				tar_header_decoded_t out; int ret; size_t rest; sqfs_u64 skip;
+				sqfs_istream_t *fp = mem_stream(st + off, (size_t)len - off);
+				cap_begin();
+				hook_on = 1;
+				ret = read_header(fp, &out);
+				hook_on = 0;
+				(void)cap_end();
+				if (ret != 0) { sqfs_drop(fp); break; }
+				skip = out.record_size;
+				rest = drain(fp);
+				clear_header(&out);
+				sqfs_drop(fp);
+				if (skip > (sqfs_u64)rest) break;
+				if (skip % 512) skip += 512 - skip % 512;
+				if (skip > (sqfs_u64)rest) break;
+				off = (size_t)len - rest + (size_t)skip;
+			}
+			printf("max %zu\n", hook_max);
 			free(st);
 		} else if (!strcmp(op, "gl") && n >= 2) {
 			/* the reading loop of fstree_from_file_stream / xattr_open_map_file / sort file: get a line, use it,
